@@ -6,6 +6,7 @@ package core
 import (
 	"encoding/json"
 	"fmt"
+	repodir "github.com/notaryproject/notation-go/dir"
 	"math/rand/v2"
 	"os"
 	"path/filepath"
@@ -246,7 +247,15 @@ func RunPlan(t *testing.T, l Lens, p *Plan, keepLog bool) *Result {
 				simexec.Reset()
 				rt.Cur = nil
 				env := &Env{T: t, Dir: dir, KeepLog: keepLog, Plan: p}
+				// the user-level directories of the library (configuration, plugins, caches) are inside the sandbox: a
+				// changed tree that starts using one of them by default (a CRL file cache, say) must touch neither the
+				// real home directory nor what an earlier run left there. Lenses that use these directories set
+				// them again themselves.
+				oldCfg, oldLib, oldCache := repodir.UserConfigDir, repodir.UserLibexecDir, repodir.UserCacheDir
+				home := filepath.Join(dir, ".home")
+				repodir.UserConfigDir, repodir.UserLibexecDir, repodir.UserCacheDir = filepath.Join(home, "config"), filepath.Join(home, "libexec"), filepath.Join(home, "cache")
 				res = l.Exec(env)
+				repodir.UserConfigDir, repodir.UserLibexecDir, repodir.UserCacheDir = oldCfg, oldLib, oldCache
 				rt.Cur = nil
 			})
 		}()
